@@ -199,7 +199,12 @@ def rule_columns_scoped(ctx):
                 g = a0.generators[0]
                 key_is_feature = unparse(a0.key) in (unparse(g.target), unparse(g.target.elts[0]) if isinstance(g.target, ast.Tuple) else "")
                 over_features = "features" in unparse(g.iter) or "labels_per_values" in unparse(g.iter)
-                nested = isinstance(a0.value, (ast.DictComp, ast.Name, ast.Subscript))
+                # the inner mapping is the feature's own: it mentions the feature variable, or is the
+                # second component of the (feature, mapping) pairs being iterated
+                fvar = unparse(a0.key)
+                own = any(isinstance(x, ast.Name) and x.id == fvar for x in ast.walk(a0.value)) or (
+                    isinstance(g.target, ast.Tuple) and len(g.target.elts) == 2 and unparse(a0.value) == unparse(g.target.elts[1]))
+                nested = isinstance(a0.value, (ast.DictComp, ast.Name, ast.Subscript)) and own
                 ok = key_is_feature and over_features and nested
             ctx.ob(R, construct(fi, f"{recv}.replace(...) maps values column by column ({{feature: {{value: label}}}})"), ok, loc(fi, c),
                    "" if ok else "a mapping that is not keyed by feature applies to every column of the frame")
@@ -304,6 +309,7 @@ MUTANTS = [
        "    # list of masks of values to replace with there respective group\n    ranks = df_feature.rank(pct=True)\n    values_to_group = [ranks <= 0.5 for value in feature_values if value != str_nan]")], "R-rowwise"),
     M("NaN reinstated only when the frame holds a missing value", [(F_BASE, "                if self.str_nan in label_per_value:\n                    x_copy[feature] = x_copy[feature].replace(label_per_value[self.str_nan], nan)", "                if self.str_nan in label_per_value and x_copy[feature].isna().any():\n                    x_copy[feature] = x_copy[feature].replace(label_per_value[self.str_nan], nan)")], "R-rowwise", "aggregate"),
     M("default replacement applied frame-wide", [(F_BASE, "        X.replace(\n            {\n                feature: {\n                    val: self.str_default\n                    for val in uniques[feature]\n                    if val not in self.values_orders[feature].values()\n                    and val != self.str_nan\n                    and self.str_default in self.values_orders[feature].values()\n                }\n                for feature in features\n            },\n            inplace=True,\n        )", "        X.replace(\n            {\n                val: self.str_default\n                for feature in features\n                for val in uniques[feature]\n                if val not in self.values_orders[feature].values()\n                and val != self.str_nan\n                and self.str_default in self.values_orders[feature].values()\n            },\n            inplace=True,\n        )")], "R-rowwise", "column by column"),
+    M("one flat unknown->default mapping shared by all features", [(F_BASE, "        X.replace(\n            {\n                feature: {\n                    val: self.str_default\n                    for val in uniques[feature]\n                    if val not in self.values_orders[feature].values()\n                    and val != self.str_nan\n                    and self.str_default in self.values_orders[feature].values()\n                }\n                for feature in features\n            },\n            inplace=True,\n        )", "        unknown_to_default = {\n            val: self.str_default\n            for feature in features\n            for val in uniques[feature]\n            if val not in self.values_orders[feature].values()\n            and val != self.str_nan\n            and self.str_default in self.values_orders[feature].values()\n        }\n        X.replace({feature: unknown_to_default for feature in features}, inplace=True)")], "R-rowwise", "column by column"),
     M("nan filled with the column's mode", [(F_BASE, "        if nan_value != str_nan:\n            df_feature[nans] = nan_value", "        if nan_value != str_nan:\n            df_feature[nans] = df_feature.mode()[0]")], "R-rowwise"),
     M("y mutated in ChainedDiscretizer-style fillna inplace", [(F_QUAL, "        # checking for binary target\n        x_copy = super()._prepare_data(X, y)\n\n        # checks and initilizes", "        # checking for binary target\n        x_copy = super()._prepare_data(X, y)\n        y.fillna(0, inplace=True)\n\n        # checks and initilizes")], "R-copy-true", "CategoricalDiscretizer.fit"),
 ]
